@@ -19,7 +19,7 @@ PLANS = {
                  'non-trivial = >=2 Nerode classes and at least one mergeable pair of states.'),
         'schedule_measure': 'distinct (abstract DFA, iteration order of its Q/Sigma/F sets in the executing process) pairs',
         'assumptions': COMMON_ASSUMPTIONS,
-        'expected_probes': ['has_unreachable', 'F_empty', 'F_full', 'one_state', 'sigma_empty', 'logging_on', 'nontrivial'],
+        'expected_probes': ['has_unreachable', 'F_empty', 'F_full', 'one_state', 'sigma_empty', 'logging_on', 'nontrivial', 'inplace_edit_between_calls', 'earlier_calls_on_a_twin'],
         'technique': 'deterministic simulation: seeded search over set-iteration schedules (PYTHONHASHSEED x renaming x insertion order) and the logging knob; reference-model oracle; minimised replay files',
         'level_text': 'seeded sampling of DFAs x schedules; every result of the three minimisers is checked against an independent reference (validity, exact language equality, Moore refinement leaves every state alone, Nerode class-count bounds, argument snapshot); evidence, not proof',
         'design_ref': 'DESIGN.md 5.2',
@@ -36,7 +36,7 @@ PLANS = {
         'schedule_measure': 'distinct (abstract pair, iteration order of both DFAs\' Q/Sigma/F sets) pairs; pair exploration order is set_element(todo)',
         'assumptions': COMMON_ASSUMPTIONS + ['a call that does not return within 300000 ticks (correct code needs < 3000 on these sizes) is counted as non-terminating'],
         'expected_probes': ['pair_isomorphic', 'pair_equivalent_not_isomorphic', 'pair_inequivalent',
-                            'same_language_different_reachable_count', 'has_unreachable', 'identical_objects', 'nontrivial'],
+                            'same_language_different_reachable_count', 'has_unreachable', 'identical_objects', 'nontrivial', 'inplace_edit_between_calls', 'earlier_calls_on_a_twin'],
         'technique': 'deterministic simulation: seeded search over pair-exploration schedules (PYTHONHASHSEED x renaming) under a simulated tick clock (bounded liveness); canonical-form oracle; minimised replay files',
         'level_text': 'seeded sampling of DFA pairs of five classes x schedules; both functions and both argument orders must answer exactly canon(D1)==canon(D2) and must return within the tick budget; evidence, not proof',
         'design_ref': 'DESIGN.md 5.9',
